@@ -71,11 +71,11 @@ def seeded(ck, n):
 
 
 def trace_diagonal(c):
-    """trace over a diagonal with a negative offset or an empty diagonal (same root as C04's diagonal findings)."""
+    """trace over an empty diagonal: the reduction over an axis of extent 0 dies (unwrap of Nothing inside view::reduce)."""
     if c["op"] != "trace": return False
     a = c["args"]; s = c["shapes"][0]; d = len(s); n1 = s[a["axis1"] % d]; n2 = s[a["axis2"] % d]; off = a["offset"]
     ln = max(0, min(n1, n2 - off)) if off >= 0 else max(0, min(n1 + off, n2))
-    return off < 0 or ln == 0
+    return ln == 0
 
 
 def matmul_1d_operand(c):
